@@ -1,5 +1,6 @@
-"""Per-property tables for ./check: Lean modules whose theorems are the obligations, and the
-correspondence jobs (harness command, component, case counts per tier)."""
+"""Loads per-property tables for ./check from cfg/Cxx.py: PROP = Lean modules whose theorems are
+the obligations + correspondence jobs; META = MANIFEST level texts."""
+import os, glob, importlib.util
 
 TRUSTED_BASE = [
     "Lean 4.33.0 kernel; axioms limited to propext, Classical.choice, Quot.sound (audited per theorem on every run)",
@@ -7,16 +8,12 @@ TRUSTED_BASE = [
     "Go runtime, standard library and third-party libraries below the modelled code",
 ]
 
-PROPS = {}
-
-PROPS["C07"] = {
-    "lean_modules": ["ConduitModel.Props.C07", "ConduitModel.Facts.C07"],
-    "jobs": [
-        {"harness": "h_pure", "comp": "dlqwindow", "n_quick": 20000, "n_thorough": 700000,
-         "why": "verdicts of the real dlqWindow (v1 stream / v2 funnel) differ from the model that is proved equal to the C07 window specification"},
-    ],
-    "rule": "dlqwindow: (size, threshold, outcome sequence | batch list) from a seeded generator biased to small windows; "
-            "a case is non-trivial when at least one nack was refused; distinct = distinct case lines",
-    "strength": "window clause: full (all sizes, thresholds, histories, partitions); pipeline-level DLQ clauses: see level_note",
-    "assumptions": ["the ring buffer is only driven through Ack/Nack (no concurrent access: it is owned by one goroutine in both engines)"],
-}
+PROPS, META = {}, {}
+_here = os.path.dirname(os.path.abspath(__file__))
+for _p in sorted(glob.glob(os.path.join(_here, "cfg", "C*.py"))):
+    _pid = os.path.basename(_p)[:-3]
+    _spec = importlib.util.spec_from_file_location("cfg_" + _pid, _p)
+    _m = importlib.util.module_from_spec(_spec)
+    _spec.loader.exec_module(_m)
+    PROPS[_pid] = _m.PROP
+    META[_pid] = _m.META
